@@ -1,6 +1,8 @@
 import WhVerif.Lemmas.C11
 import WhVerif.Lemmas.C11Geno
 import WhVerif.Lemmas.C11PolyPairs
+import WhVerif.Lemmas.C11Invariant
+import WhVerif.Lemmas.C11Glue
 /-!
 # C11 — `whatshap compare` reports the defined error counts, independent of haplotype labelling
 
@@ -253,5 +255,187 @@ theorem FC11b_witness :
     let ph1 : List Hap := [[1,0,0,1],[0,1,0,0],[1,0,1,0]]
     (polySwitchFlips true false ph0 ph1 3 4).admissible.length = 2 ∧
     (polySwitchFlips true true ph0 ph1 3 4).admissible.length = 1 := by decide
+
+/-! ## realisability of the reported decomposition, and independence of the listing order (polyploid)
+
+Objective the calculator minimises: `sc · switches + fc · flips` over ALL sequences of haplotype correspondences, one
+bijection per position (`Spec.polyBrute`).  `compare_block` calls it twice: switch errors with costs `1 / 2np+1` on the
+genotype-matching positions, and (repaired, commit 677593e = `fixB`) the switch/flip decomposition with costs
+`k / k+1`, `k = pn + 1`, i.e. lexicographically (switches + flips, then flips).  In both regimes the optimal cost
+determines the pair, so the reported pair is unique whatever the iteration order of the `unordered_map`s. -/
+
+/-- **realisability**: every `(switches, flips)` pair the back-tracking may return (any hash order) is the count pair
+of an actual sequence of haplotype correspondences, one bijection per position, and that sequence is optimal: the
+pair is a member of the brute-force set of optimal pairs (≥ 2 positions, or repaired single-position code) -/
+theorem poly_reported_pair_realised (fixA : Bool) (p sc fc : Nat) (hp : p ≤ 4)
+    (cols : List (List Nat × List Nat)) (hq : fixA = true ∨ 2 ≤ cols.length) :
+    ∀ sf ∈ (polyCompare fixA p sc fc cols).admissible, sf ∈ (Spec.polyBrute p sc fc cols).2 := by
+  intro sf hsf
+  rw [mem_polyBrute_snd, ← perms_eq_bijections p hp]
+  exact ⟨polyCompare_admissible_realised fixA p sc fc cols hq sf hsf,
+    poly_reported_pair_has_optimal_cost fixA p sc fc hp cols hq sf hsf⟩
+
+example : (0, 1) ∈ (polyCompare true 3 1 1 [([0,0,1],[0,1,0]), ([0,1,1],[1,0,0])]).admissible ∧
+    (0, 1) ∈ (Spec.polyBrute 3 1 1 [([0,0,1],[0,1,0]), ([0,1,1],[1,0,0])]).2 := by decide
+
+/-- the pair reported under first-arg-min tie-breaking is one of the admissible pairs (so it is realised and
+optimal as well, and the admissible set is never empty) -/
+theorem poly_rep_is_admissible (fixA : Bool) (p sc fc : Nat) (hp : p ≤ 4) (cols : List (List Nat × List Nat)) :
+    (polyCompare fixA p sc fc cols).rep ∈ (polyCompare fixA p sc fc cols).admissible :=
+  polyCompare_rep_admissible fixA p sc fc (perms_ne_nil p hp) cols
+
+example : (polyCompare true 3 1 1 [([0,0,1],[0,1,0]), ([0,1,1],[1,1,0]), ([1,0,0],[0,1,0])]).rep = (2, 0) := by decide
+
+/-- the repaired decomposition of `compare_block` (costs `pn+1 / pn+2`) is unique — every pair the code may return,
+under any iteration order, is the same — and it is the lexicographic minimum of (switches + flips, flips) over all
+sequences of correspondences -/
+theorem poly_fixed_split_unique_lexmin (p n : Nat) (hp : p ≤ 4) (ph0 ph1 : List Hap) :
+    (∀ sf ∈ (polySwitchFlips true true ph0 ph1 p n).admissible, sf = (polySwitchFlips true true ph0 ph1 p n).rep) ∧
+    ∀ s ∈ Spec.seqs (Spec.bijections p) n,
+      let r := (polySwitchFlips true true ph0 ph1 p n).rep
+      let sw := Spec.seqSwitches s
+      let fl := Spec.seqFlips s (polyCols ph0 ph1 n)
+      r.1 + r.2 < sw + fl ∨ (r.1 + r.2 = sw + fl ∧ r.2 ≤ fl) := by
+  have hlen : (polyCols ph0 ph1 n).length = n := polyCols_length ph0 ph1 n
+  constructor
+  · simp only [polySwitchFlips, if_true]
+    apply polyCompare_admissible_unique p _ _ hp
+    rw [hlen]; exact determined_lex _ _ (by omega)
+  · intro s hs
+    simp only [polySwitchFlips, if_true]
+    generalize hcols : polyCols ph0 ph1 n = cols at hlen ⊢
+    have hrep := polyCompare_rep_admissible true p (p * n + 1) (p * n + 2) (perms_ne_nil p hp) cols
+    have hcost := polyCompare_admissible_cost true p (p * n + 1) (p * n + 2) cols (Or.inl rfl) _ hrep
+    obtain ⟨_, hb⟩ := polyCompare_admissible_bounds p (p * n + 1) (p * n + 2) hp cols _ hrep
+    rw [hlen] at hb
+    -- lower bound: the cost is the minimum over all sequences
+    have hmin : (polyCompare true p (p * n + 1) (p * n + 2) cols).cost
+        ≤ (p * n + 1) * Spec.seqSwitches s + (p * n + 2) * Spec.seqFlips s cols := by
+      rw [polyCompare_cost_eq_bruteValue true p _ _ hp cols]
+      apply listMin_le_of_mem
+      rw [hlen, perms_eq_bijections p hp]
+      exact List.mem_map.2 ⟨s, hs, rfl⟩
+    obtain ⟨hl, hall⟩ := (mem_seqs _ _ _).1 hs
+    have hfl : Spec.seqFlips s cols ≤ p * n := by
+      have := seqFlips_le p s cols (fun r hr => perms_length p hp r (by rw [perms_eq_bijections p hp]; exact hall r hr))
+      rwa [hlen] at this
+    generalize (polyCompare true p (p * n + 1) (p * n + 2) cols).rep = r at hcost hb hmin ⊢
+    generalize Spec.seqSwitches s = sw at hmin ⊢
+    generalize Spec.seqFlips s cols = fl at hmin hfl ⊢
+    generalize (polyCompare true p (p * n + 1) (p * n + 2) cols).cost = c at hcost hmin
+    generalize p * n = B at *
+    -- (B+1)·(r.1 + r.2) + r.2 ≤ (B+1)·(sw + fl) + fl with r.2, fl ≤ B
+    have e1 : (B + 1) * r.1 + (B + 2) * r.2 = (B + 1) * (r.1 + r.2) + r.2 := by
+      simp only [Nat.mul_add, Nat.add_mul]; omega
+    have e2 : (B + 1) * sw + (B + 2) * fl = (B + 1) * (sw + fl) + fl := by
+      simp only [Nat.mul_add, Nat.add_mul]; omega
+    show r.1 + r.2 < sw + fl ∨ (r.1 + r.2 = sw + fl ∧ r.2 ≤ fl)
+    rcases Nat.lt_trichotomy (r.1 + r.2) (sw + fl) with h | h | h
+    · exact Or.inl h
+    · right
+      refine ⟨h, ?_⟩
+      rw [h] at e1
+      omega
+    · exfalso
+      have : (B + 1) * (sw + fl + 1) ≤ (B + 1) * (r.1 + r.2) := Nat.mul_le_mul_left _ h
+      rw [Nat.mul_succ] at this
+      omega
+
+example : (polySwitchFlips true true [[1,1,0,0],[0,0,0,1],[1,0,1,0]] [[1,0,0,1],[0,1,0,0],[1,0,1,0]] 3 4).admissible
+    = [(2, 0)] := by decide
+
+/-- **what is invariant for arbitrary costs** (in particular the as-coded `1 / 1` split): the optimal objective
+value and the SET of co-optimal `(switches, flips)` pairs do not depend on the order in which the haplotypes of
+either phasing are listed (which member of that set the as-coded calculator returns does: `FC11b_witness`) -/
+theorem poly_optimum_perm_invariant (fixA : Bool) (p sc fc n : Nat) (hp : p ≤ 4) (τ υ : Perm) (hτ : τ ∈ perms p)
+    (hυ : υ ∈ perms p) (ph0 ph1 : List Hap) (h0 : ph0.length = p) (h1 : ph1.length = p) :
+    (polyCompare fixA p sc fc (polyCols (relabelHaps τ ph0) (relabelHaps υ ph1) n)).cost
+        = (polyCompare fixA p sc fc (polyCols ph0 ph1 n)).cost ∧
+    ∀ sf, sf ∈ (Spec.polyBrute p sc fc (polyCols (relabelHaps τ ph0) (relabelHaps υ ph1) n)).2
+        ↔ sf ∈ (Spec.polyBrute p sc fc (polyCols ph0 ph1 n)).2 := by
+  have hc := cost_relabel_eq p sc fc hp τ υ hτ hυ ph0 ph1 n h0 h1
+  refine ⟨by rw [cost_fixA_irrelevant, hc, ← cost_fixA_irrelevant], ?_⟩
+  intro sf
+  rw [mem_polyBrute_snd, mem_polyBrute_snd, ← perms_eq_bijections p hp,
+    attainable_relabel_iff p hp τ υ hτ hυ ph0 ph1 n h0 h1 sf,
+    ← poly_dp_optimal true p sc fc hp, ← poly_dp_optimal true p sc fc hp, hc]
+
+example : [2,0,1] ∈ perms 3 ∧ [1,0,2] ∈ perms 3 ∧
+    relabelHaps [2,0,1] [[1,1,0,0],[0,0,0,1],[1,0,1,0]] = [[1,0,1,0],[1,1,0,0],[0,0,0,1]] := by decide
+
+/-- **`poly_perm_invariant`** (current code: repaired single-position and tie-breaking behaviour): for ploidy 3 and 4
+everything `compare_block` reports — switch errors, Hamming distance, the switch/flip decomposition, different
+genotypes — is unchanged when the haplotypes of the first phasing are listed in the order `τ` and those of the second
+in the order `υ`, for all permutations `τ`, `υ` (the diploid case is `swap_invariant_left/right`) -/
+theorem poly_perm_invariant (ph0 ph1 : List Hap) (τ υ : Perm) (hw : wellFormed ph0 ph1 = true)
+    (hp : ph0.length ≤ 4) (h2 : ph0.length ≠ 2) (hτ : τ ∈ perms ph0.length) (hυ : υ ∈ perms ph0.length) :
+    compareBlock true true (relabelHaps τ ph0) (relabelHaps υ ph1) = compareBlock true true ph0 ph1 := by
+  obtain ⟨hp2, s0, s1⟩ := (wellFormed_iff ph0 ph1).1 hw
+  generalize hpd : ph0.length = p at *
+  generalize hnd : (ph0.headD []).length = n at *
+  have t0 := s0.relabel τ (perms_length p hp τ hτ) (perms_entries_lt p hp τ hτ)
+  have t1 := s1.relabel υ (perms_length p hp υ hυ) (perms_entries_lt p hp υ hυ)
+  rw [compareBlock_poly true true _ _ (t0.wellFormed t1 hp2) (by rw [t0.1]; exact h2),
+    compareBlock_poly true true ph0 ph1 hw (by rw [hpd]; exact h2), t0.1, hpd, hnd,
+    t0.head_length (by omega)]
+  exact polyBlock_relabel p n hp τ υ hτ hυ ph0 ph1 hpd s1.1
+
+example : wellFormed [[1,1,0,0],[0,0,0,1],[1,0,1,0]] [[1,0,0,1],[0,1,0,0],[1,0,1,0]] = true ∧
+    compareBlock true true [[1,1,0,0],[0,0,0,1],[1,0,1,0]] [[1,0,0,1],[0,1,0,0],[1,0,1,0]]
+      = some ⟨2, 2, ⟨2, 0⟩, 0, 3⟩ ∧
+    compareBlock true true (relabelHaps [2,0,1] [[1,1,0,0],[0,0,0,1],[1,0,1,0]])
+      (relabelHaps [1,0,2] [[1,0,0,1],[0,1,0,0],[1,0,1,0]]) = some ⟨2, 2, ⟨2, 0⟩, 0, 3⟩ := by decide
+
+/-! ## F45: the longest-block agreement on multi-allelic calls -/
+
+/-- F45: as coded (also after the F3 repair) the orientation test calls `complement` on the first haplotype of the
+second phasing; a multi-allelic heterozygous call `2|1` makes it raise `KeyError` (`none`): `whatshap compare` dies.
+With the second haplotype itself (fixes/F45.patch) there is no failure. -/
+theorem F45_witness :
+    agreementFixed [[2,0,0],[1,1,1]] [[2,0,0],[1,1,1]] = none ∧
+    agreementSecond [[2,0,0],[1,1,1]] [[2,0,0],[1,1,1]] = some [1,1,1] ∧
+    (comparePair true true true false false 2 [⟨10,[2,1],true,1⟩, ⟨20,[0,1],true,1⟩] [⟨10,[2,1],true,1⟩, ⟨20,[0,1],true,1⟩]).isNone ∧
+    (comparePair true true true true false 2 [⟨10,[2,1],true,1⟩, ⟨20,[0,1],true,1⟩] [⟨10,[2,1],true,1⟩, ⟨20,[0,1],true,1⟩]).isSome := by
+  decide
+
+/-- the F45 repair never fails, and on heterozygous biallelic phasings (what `compare` handled so far) it is the
+F3-repaired function: nothing changes there -/
+theorem F45_repair_conservative (a b : Hap) (hb : IsBinary b) (ph0 ph1 : List Hap) :
+    (agreementSecond ph0 ph1).isSome ∧ agreementSecond (dipl a) (dipl b) = agreementFixed (dipl a) (dipl b) := by
+  refine ⟨rfl, ?_⟩
+  rw [agreementFixed_dipl a b hb]
+  rfl
+
+example : IsBinary [0,1,1] ∧ agreementSecond (dipl [0,0,1]) (dipl [0,1,1]) = some [1,0,1] := by decide
+
+/-! ## F46: diploid comparison of multi-allelic calls -/
+
+/-- F46 on the model of `compare` as coded: two diploid data sets over the same three variants, the multi-allelic first
+call listed `2|1` in one and `1|2` in the other (different phasings: one switch error by definition).  `compare` reports
+0 switch errors; listing the haplotypes of the first data set in the other order (`1|2, 1|0, 1|0`) it reports 1.  With
+fixes/F46.patch (`fix46`: such a call is not assessed) both listings give the same row. -/
+theorem F46_witness :
+    let d : List Call := [⟨10,[2,1],true,1⟩, ⟨20,[0,1],true,1⟩, ⟨30,[0,1],true,1⟩]
+    let d' : List Call := [⟨10,[1,2],true,1⟩, ⟨20,[1,0],true,1⟩, ⟨30,[1,0],true,1⟩]
+    let c : List Call := [⟨10,[1,2],true,1⟩, ⟨20,[0,1],true,1⟩, ⟨30,[0,1],true,1⟩]
+    (comparePair true true true true false 2 d c).map (·.total.switches) = some 0 ∧
+    (comparePair true true true true false 2 d' c).map (·.total.switches) = some 1 ∧
+    (comparePair true true true true true 2 d c).map (fun r => (r.assessedPairs, r.total.switches)) = some (1, 0) ∧
+    (comparePair true true true true true 2 d' c).map (fun r => (r.assessedPairs, r.total.switches)) = some (1, 0) := by
+  decide
+
+/-- with fixes/F46.patch every block of assessed diploid calls (genotypes of length 2: the reader's ploidy check) that
+`compare_pair` hands to `compare_block` is a binary string and its complement — the shape `dipl a`, `IsBinary a` for which
+the diploid theorems above (identities, minimality, invariance under listing order, agreement) are proved -/
+theorem assessed_diploid_blocks_are_complementary (t : List Call) (common block : List Nat)
+    (hall : ∀ i ∈ block, ∃ ps gt, (phasesOfP true 2 t common).getD i none = some (ps, gt) ∧ gt.length = 2) :
+    IsBinary (hapOf (phasesOfP true 2 t common) block 0) ∧
+    (List.range 2).map (hapOf (phasesOfP true 2 t common) block) = dipl (hapOf (phasesOfP true 2 t common) block 0) :=
+  assessed_block_is_dipl t common block hall
+
+example : (phasesOfP true 2 [⟨10,[0,1],true,1⟩, ⟨20,[2,1],true,1⟩, ⟨30,[1,0],true,1⟩] [10,20,30])
+    = [some (1,[0,1]), none, some (1,[1,0])] ∧
+    (List.range 2).map (hapOf (phasesOfP true 2 [⟨10,[0,1],true,1⟩, ⟨20,[2,1],true,1⟩, ⟨30,[1,0],true,1⟩] [10,20,30]) [0,2])
+      = dipl [0,1] := by decide
 
 end WhVerif.Props.C11
